@@ -680,10 +680,15 @@ pub fn check_item_block(t: &str, start: usize, end: usize, block: &str) -> Resul
         if body != word {
             return Err(format!("marker line {:?} is not spaces followed by {}", trunc(line, 80), word));
         }
-        if left.is_ascii() {
+        // (the marked character itself must be ASCII as well: the implementation counts bytes, and
+        // what the column of / after a wide or combining character is, the property leaves open)
+        let marked_ascii = word == "_start" || t[last..].chars().next().map(|c| c.is_ascii()).unwrap_or(true);
+        if left.is_ascii() && marked_ascii {
             compared += 1;
             let col = line.len() - body.len();
-            if col != w + width(left) {
+            // a marked tab occupies four columns; which of them "its column" is, is left open
+            let slack = if word == "‾end" && t[last..].starts_with('\t') { 3 } else { 0 };
+            if col < w + width(left) || col > w + width(left) + slack {
                 return Err(format!("{} marker in column {}, expected {} (prefix width {} + column {})", word, col, w + width(left), w, width(left)));
             }
         }
@@ -1016,4 +1021,78 @@ pub fn list_check(rd: &Rendered, sp: &Sp, cfg: &Cfg, step: u8, c15_space: bool, 
         rep.c17 = v;
     }
     rep
+}
+
+/// C17 as a law over the regions the implementation itself reports (hook events of one list_all
+/// call), independent of any geometry model: every region of an element that was decided
+/// "registered, condition does not hold" is either listed as Pending (possibly as part of a larger
+/// Pending region) or lies wholly inside a listed Ready region; no listed Pending region lies
+/// wholly inside a listed Ready region or another listed Pending region; listed Pending regions are
+/// made of pending elements' regions; statuses of the JSON items follow the markers; the Ready
+/// items are the plain list. Returns (verdict, pending regions seen, pending regions listed).
+pub fn c17_law(text: &str, sp: &Sp, cfg: &Cfg) -> (V, usize, usize) {
+    let (laj, ev) = match api::call(Entry::ListAllJson, text, sp, cfg) {
+        Ok(x) => x,
+        Err(p) => return (V::Violated(format!("list_all panicked: {} @ {}", trunc(&p.msg, 80), api::short_loc(&p.loc))), 0, 0),
+    };
+    let lj = match api::call(Entry::ListJson, text, sp, cfg) {
+        Ok((x, _)) => x,
+        Err(p) => return (V::Violated(format!("list panicked: {} @ {}", trunc(&p.msg, 80), api::short_loc(&p.loc))), 0, 0),
+    };
+    let Some(markers) = ev.iter().find_map(|e| match e {
+        Event::ListMarkers { all: true, markers } => Some(markers.clone()),
+        _ => None,
+    }) else {
+        return (V::Skipped("no hook events (built without hooks)"), 0, 0);
+    };
+    let ready_m: Vec<(usize, usize)> = markers.iter().filter(|m| m.3).map(|m| (m.0, m.1)).collect();
+    let pend_m: Vec<(usize, usize)> = markers.iter().filter(|m| !m.3).map(|m| (m.0, m.1)).collect();
+    let mut pend_regs: Vec<(usize, usize)> = vec![];
+    for e in &ev {
+        if let Event::Decision { outcome: Some((a, b, false)), .. } = e {
+            pend_regs.push(*a);
+            if let Some(b) = b {
+                pend_regs.push(*b);
+            }
+        }
+    }
+    let inside = |x: &(usize, usize), y: &(usize, usize)| y.0 <= x.0 && x.1 <= y.1;
+    for p in &pend_regs {
+        if !ready_m.iter().any(|r| inside(p, r)) && !pend_m.iter().any(|q| inside(p, q)) {
+            return (
+                V::Violated(format!(
+                    "the region {:?} of an element whose condition does not hold is neither listed as Pending nor wholly inside a listed region (listed: {:?})",
+                    p, markers
+                )),
+                pend_regs.len(),
+                pend_m.len(),
+            );
+        }
+    }
+    for (k, q) in pend_m.iter().enumerate() {
+        if ready_m.iter().any(|r| inside(q, r)) {
+            return (V::Violated(format!("Pending region {:?} is listed although it lies wholly inside a listed Ready region (listed: {:?})", q, markers)), pend_regs.len(), pend_m.len());
+        }
+        if pend_m.iter().enumerate().any(|(j, o)| j != k && inside(q, o)) {
+            return (V::Violated(format!("Pending region {:?} is listed although it lies wholly inside another listed Pending region (listed: {:?})", q, markers)), pend_regs.len(), pend_m.len());
+        }
+        if !pend_regs.iter().any(|p| p.0 == q.0) || !pend_regs.iter().any(|p| p.1 == q.1) {
+            return (V::Violated(format!("listed Pending region {:?} is not made of regions of pending elements {:?}", q, pend_regs)), pend_regs.len(), pend_m.len());
+        }
+    }
+    let (items_la, items_l) = match (parse_list_json(&laj), parse_list_json(&lj)) {
+        (Ok(a), Ok(b)) => (a, b),
+        _ => return (V::Skipped("JSON list not parseable (C16)"), pend_regs.len(), pend_m.len()),
+    };
+    if items_la.len() != markers.len() || items_la.iter().zip(markers.iter()).any(|(i, m)| i.ready != m.3) {
+        return (V::Violated(format!("list_all shows {} items for {} regions, or with other statuses", items_la.len(), markers.len())), pend_regs.len(), pend_m.len());
+    }
+    let ready_sub: Vec<&Item> = items_la.iter().filter(|i| i.ready).collect();
+    if ready_sub.len() != items_l.len() || ready_sub.iter().zip(items_l.iter()).any(|(a, b)| **a != *b) {
+        return (V::Violated("Ready items of list_all differ from the plain list".into()), pend_regs.len(), pend_m.len());
+    }
+    if pend_regs.is_empty() {
+        return (V::NA, 0, pend_m.len());
+    }
+    (V::Held, pend_regs.len(), pend_m.len())
 }
